@@ -365,7 +365,16 @@ fn strip(f: &str) -> String {
     if let Some(body) = f.strip_prefix("N:[") {
         let body = body.trim_end_matches(']');
         let items: Vec<&str> = if body.is_empty() { vec![] } else { body.split(';').collect() };
-        format!("N:[{}]", items.iter().map(|i| i.split('~').next().unwrap_or("")).collect::<Vec<_>>().join(";"))
+        // positions in a numbering that ignores how character data is cut into nodes: an empty text node has no
+        // counterpart in a re-parse, the pieces of one run of character data share one position
+        let mut paths: Vec<&str> = vec![];
+        for i in items.iter().map(|i| i.split('~').next().unwrap_or("")) {
+            if i.ends_with("/!empty") || paths.last() == Some(&i) {
+                continue;
+            }
+            paths.push(i);
+        }
+        format!("N:[{}]", paths.join(";"))
     } else {
         f.to_string()
     }
